@@ -794,8 +794,8 @@ def opRD (args obs : List String) : P String := do
         | some a => pure (sumFmt x size, if twoD then [r, c] else [size], (alongAxis (cumL (· + ·)) a rows).flatten)
       | "cumprod" =>
         match axr with
-        | none => pure (prodFmt x size, [size], cumprodCodes x size rows.flatten)
-        | some a => pure (prodFmt x size, if twoD then [r, c] else [size], (alongAxis (cumprodCodes x size) a rows).flatten)
+        | none => pure (cumprodFmt x size, [size], cumprodCodes x size rows.flatten)
+        | some a => pure (cumprodFmt x size, if twoD then [r, c] else [size], (alongAxis (cumprodCodes x size) a rows).flatten)
       | "sort" =>
         match axr with
         | none =>
